@@ -63,6 +63,10 @@ inductive Ents where
   | live (k : Name) (n : N) (l : L) (rest : Ents)
 end
 
+deriving instance DecidableEq for N, NL
+deriving instance DecidableEq for L, Ents
+deriving instance DecidableEq for Except
+
 instance : Inhabited N := ⟨.dir {} .nil⟩
 instance : Inhabited L := ⟨.dir {} .nil⟩
 
@@ -378,28 +382,36 @@ def rm (p : Path) (root : L) : R Unit :=
 
 def lastName (p : List Name) : Name := (p.getLast?).getD ""
 
+/-- end of `Mv`: `dstDir.AddChild(dstFname, nd)`, then `srcDir.Unlink(srcFname)` unless source and
+destination are taken to be the same entry -/
+def mvGo (cmpNames : Bool) (sdir : List Name) (sname : Name) (nd : N) (ddir' : List Name) (dname' : Name)
+    (root : L) : R Unit :=
+  andThen (atPath ddir' (actAddChild dname' nd) root) fun _ root =>
+    if (if cmpNames then lastName sdir = lastName ddir' else sdir = ddir') ∧ sname = dname' then
+      ⟨.ok (), root, none⟩
+    else atPath sdir (actUnlink sname) root
+
+/-- middle of `Mv`: `fsn, err := dstDir.Child(dstFname)` and the switch on what is there -/
+def mvTail (cmpNames : Bool) (sdir : List Name) (sname : Name) (ddir : List Name) (dname : Name) (nd : N)
+    (root : L) : R Unit :=
+  let r5 := atPath ddir (actChild dname) root
+  match r5.res with
+  | .ok .file =>            -- _ = dstDir.Unlink(dstFname)
+    mvGo cmpNames sdir sname nd ddir dname (atPath ddir (actUnlink dname) r5.l).l
+  | .ok .dir =>             -- dstDir = n; dstFname = srcFname
+    mvGo cmpNames sdir sname nd (ddir ++ [dname]) sname r5.l
+  | .error .notfound => mvGo cmpNames sdir sname nd ddir dname r5.l
+  | .error e => ⟨.error e, r5.l, none⟩
+
 /-- `Mv(r, src, dst)`.  `cmpNames = true` is the code as found (`srcDir.name == dstDir.name`),
 `cmpNames = false` the repaired code (`srcDir == dstDir`, i.e. the same directory). -/
 def mv (cmpNames : Bool) (src dst : Path) (root : L) : R Unit :=
-  let sdir := src.split.1
-  let sname := src.split.2
-  let ddir := if dst.trailing then dst.comps else dst.split.1
-  let dname := if dst.trailing then sname else dst.split.2
-  andThen (atPath ddir actIsDir root) fun _ root =>       -- dstDir := lookupDir(dstDirName)
-  andThen (atPath sdir actIsDir root) fun _ root =>       -- srcDir := lookupDir(srcDirName)
-  andThen (atPath sdir (actChild sname) root) fun _ root =>   -- srcObj := srcDir.Child(srcFname)
-  andThen (atPath (sdir ++ [sname]) actGetNode root) fun nd root =>   -- nd := srcObj.GetNode()
-  let r5 := atPath ddir (actChild dname) root             -- fsn, err := dstDir.Child(dstFname)
-  let go (ddir' : List Name) (dname' : Name) (root : L) : R Unit :=
-    andThen (atPath ddir' (actAddChild dname' nd) root) fun _ root =>   -- dstDir.AddChild(dstFname, nd)
-    if (if cmpNames then lastName sdir = lastName ddir' else sdir = ddir') ∧ sname = dname' then
-      ⟨.ok (), root, none⟩
-    else atPath sdir (actUnlink sname) root                -- srcDir.Unlink(srcFname)
-  match r5.res with
-  | .ok .file => go ddir dname (atPath ddir (actUnlink dname) r5.l).l   -- _ = dstDir.Unlink(dstFname)
-  | .ok .dir => go (ddir ++ [dname]) sname r5.l                          -- dstDir = n; dstFname = srcFname
-  | .error .notfound => go ddir dname r5.l
-  | .error e => ⟨.error e, r5.l, none⟩
+  andThen (atPath (if dst.trailing then dst.comps else dst.split.1) actIsDir root) fun _ root =>  -- dstDir
+  andThen (atPath src.split.1 actIsDir root) fun _ root =>                                        -- srcDir
+  andThen (atPath src.split.1 (actChild src.split.2) root) fun _ root =>       -- srcObj := srcDir.Child(srcFname)
+  andThen (atPath (src.split.1 ++ [src.split.2]) actGetNode root) fun nd root =>   -- nd := srcObj.GetNode()
+  mvTail cmpNames src.split.1 src.split.2 (if dst.trailing then dst.comps else dst.split.1)
+    (if dst.trailing then src.split.2 else dst.split.2) nd root
 
 /-- byte-array spec of Seek(off) + Write(b) on a DagModifier (zero fill when `off` is past the end) -/
 def writeAt (off : Nat) (b : Bytes) (d : Bytes) : Bytes :=
